@@ -842,3 +842,172 @@ func FuzzC19Decode(f *testing.F) {
 		}
 	})
 }
+
+// ---- concurrent writers on one connection ----------------------------------------------------
+//
+// goat itself writes to a transport from several goroutines at once (every unary caller writes its own request), so
+// "read equal to what was written" must hold for envelopes written concurrently: each arrives exactly once, unchanged,
+// and the envelopes of one writer stay in that writer's order.
+
+type C19Conc struct {
+	Transport string      `json:"transport"`
+	Writers   [][]RpcSpec `json:"writers"`
+}
+
+func genC19Conc(t *rapid.T) C19Conc {
+	c := C19Conc{Transport: rapid.SampledFrom([]string{"channel", "websocket", "http", "http"}).Draw(t, "transport")}
+	nw := rapid.IntRange(2, 8).Draw(t, "writers")
+	for w := 0; w < nw; w++ {
+		var seq []RpcSpec
+		k := rapid.IntRange(1, 3).Draw(t, "k")
+		for j := 0; j < k; j++ {
+			s := genRpcSpec(t, 262144, true)
+			s.ID = uint64(w)<<32 | uint64(j)
+			seq = append(seq, s)
+		}
+		c.Writers = append(c.Writers, seq)
+	}
+	return c
+}
+
+func execC19Conc(t *testing.T, c C19Conc) (v Verdict) {
+	total := 0
+	want := map[uint64]*goat.Rpc{}
+	for _, seq := range c.Writers {
+		for _, s := range seq {
+			x := s.Build()
+			if x.Header == nil {
+				x.Header = &goatorepo.RequestHeader{}
+			}
+			x.Header.Source = "peer"
+			want[x.GetId()] = x
+			total++
+		}
+	}
+	ctx, cancel := context.WithTimeout(context.Background(), netBudget)
+	defer cancel()
+	var writeEnd, readEnd goat.RpcReadWriter
+	switch c.Transport {
+	case "channel":
+		q := make(chan *goat.Rpc)
+		writeEnd, readEnd = goat.NewGoatOverChannel(nil, q), goat.NewGoatOverChannel(q, nil)
+	case "websocket":
+		cl, sv, _, _, cleanup := wsPair(t)
+		defer cleanup()
+		writeEnd, readEnd = cl, sv
+	case "http":
+		connected := make(chan goat.RpcReadWriter, 4)
+		recv := goat.NewGoatOverHttp(func(id string, rw goat.RpcReadWriter) { connected <- rw }, func(src string) (string, error) { return "addr-of-" + src, nil })
+		defer recv.Cancel()
+		hs := httptest.NewServer(recv)
+		defer hs.Close()
+		send := goat.NewGoatOverHttp(func(string, goat.RpcReadWriter) {}, func(s string) (string, error) { return s, nil })
+		defer send.Cancel()
+		writeEnd = send.NewConnection(strings.TrimPrefix(hs.URL, "http://"))
+		readEnd = lazyRW{connected}
+	}
+	var mu sync.Mutex
+	var got []*goat.Rpc
+	rdone := make(chan struct{})
+	go func() {
+		defer close(rdone)
+		for i := 0; i < total; i++ {
+			x, err := readEnd.Read(ctx)
+			if err != nil {
+				return
+			}
+			mu.Lock()
+			got = append(got, x)
+			mu.Unlock()
+		}
+	}()
+	var wg sync.WaitGroup
+	werrs := make([]error, len(c.Writers))
+	start := make(chan struct{})
+	for w, seq := range c.Writers {
+		w, seq := w, seq
+		wg.Add(1)
+		go func() {
+			defer wg.Done()
+			<-start
+			for _, s := range seq {
+				if err := writeEnd.Write(ctx, proto.Clone(want[s.ID]).(*goat.Rpc)); err != nil {
+					werrs[w] = err
+					return
+				}
+			}
+		}()
+	}
+	close(start)
+	wg.Wait()
+	for w, err := range werrs {
+		if err != nil {
+			if ctx.Err() != nil {
+				inconclusive(t, "%s: concurrent writes exceeded %v", c.Transport, netBudget)
+			}
+			v.failf("%s: writer %d: write of a well-formed envelope failed: %v", c.Transport, w, err)
+		}
+	}
+	if v.Fail == "" {
+		select {
+		case <-rdone:
+		case <-time.After(10 * time.Second):
+			mu.Lock()
+			n := len(got)
+			mu.Unlock()
+			v.failf("%s: %d envelopes were written concurrently without error but only %d could be read", c.Transport, total, n)
+		}
+	}
+	cancel()
+	<-rdone
+	mu.Lock()
+	defer mu.Unlock()
+	if v.Fail == "" {
+		seen := map[uint64]bool{}
+		last := map[uint64]int64{}
+		for _, x := range got {
+			id := x.GetId()
+			w, j := id>>32, int64(id&0xffffffff)
+			if want[id] == nil {
+				v.failf("%s: an envelope with id %#x was read that nobody wrote", c.Transport, id)
+				break
+			}
+			if seen[id] {
+				v.failf("%s: envelope %#x was read twice", c.Transport, id)
+				break
+			}
+			seen[id] = true
+			if !proto.Equal(x, want[id]) {
+				v.failf("%s: envelope %#x (writer %d of %d concurrent ones) changed in transit:\n got  %v\n want %v", c.Transport, id, w, len(c.Writers), truncStr(x.String()), truncStr(want[id].String()))
+				break
+			}
+			if prev, ok := last[w]; ok && prev >= j {
+				v.failf("%s: the envelopes of writer %d arrived out of that writer's order", c.Transport, w)
+				break
+			}
+			last[w] = j
+		}
+		if v.Fail == "" && len(got) != total {
+			v.failf("%s: %d envelopes read, %d written", c.Transport, len(got), total)
+		}
+	}
+	v.Info = kit.CaseInfo{Labels: []string{"conc." + c.Transport, fmt.Sprintf("conc.writers>=4=%v", len(c.Writers) >= 4)}, NonTrivial: true, Key: fmt.Sprintf("%+v", c),
+		Sample: map[string]any{"transport": c.Transport, "writers": len(c.Writers), "envelopes": total}}
+	return
+}
+
+// lazyRW reads from the logical connection that the receiving HTTP endpoint announces on first use.
+type lazyRW struct{ ch chan goat.RpcReadWriter }
+
+func (l lazyRW) Read(ctx context.Context) (*goat.Rpc, error) {
+	select {
+	case rw := <-l.ch:
+		l.ch <- rw
+		return rw.Read(ctx)
+	case <-ctx.Done():
+		return nil, ctx.Err()
+	}
+}
+func (l lazyRW) Write(ctx context.Context, r *goat.Rpc) error { return fmt.Errorf("read-only") }
+
+func TestC19Conc(t *testing.T) { checkProp(t, "C19", "concurrent-writers", genC19Conc, execC19Conc) }
